@@ -215,6 +215,12 @@ func (opt *Option) DeepCopy() Option {
 	for _, assignment := range opt.Assignments {
 		clone.Assignments = append(clone.Assignments, assignment.DeepCopy())
 	}
+	if opt.Default != nil {
+		clone.Default = &OptionDefault{}
+		for _, value := range opt.Default.ArgsValues {
+			clone.Default.ArgsValues = append(clone.Default.ArgsValues, deepCopyAny(value))
+		}
+	}
 
 	return clone
 }
